@@ -20,7 +20,10 @@
                 f0 (Hz):  <0.2    0.2-0.5   0.5-1.0   1.0-2.0   >2.0
                 eps:      0.25f0  0.20f0    0.15f0    0.10f0    0.05f0
                 theta:    3.0     2.5       2.0       1.78      1.58
-   Every comparison that is an exact equality (a band edge, a sample exactly on
+   The column headings are taken literally: 0.2 Hz is in "0.2-0.5" only and
+   2.0 Hz in "1.0-2.0" only, while 0.5 and 1.0 Hz appear in two columns each and
+   either column is accepted there.
+   Every other comparison that is an exact equality (a sample exactly on
    an interval end, a value exactly on a threshold) is a TIE: the verdict may go
    either way, the case is exported with both.  f0 is the peak of the mean curve
    inside the search range (PeakRules, property tier).                        *)
@@ -84,11 +87,11 @@ ClaIV ==
           (\A j \in UpPk : ~may(j)) \/ (\A j \in LoPk : ~may(j)))
 
 Bands == { b \in 1..5 :
-            \/ b = 1 /\ RLe(F0, Q(2, 10))
+            \/ b = 1 /\ RLt(F0, Q(2, 10))           \* "< 0.2": 0.2 itself is in the second column only
             \/ b = 2 /\ RLe(Q(2, 10), F0) /\ RLe(F0, Q(5, 10))
             \/ b = 3 /\ RLe(Q(5, 10), F0) /\ RLe(F0, R(1))
             \/ b = 4 /\ RLe(R(1), F0) /\ RLe(F0, R(2))
-            \/ b = 5 /\ RLe(R(2), F0) }
+            \/ b = 5 /\ RLt(R(2), F0) }             \* "> 2.0": 2.0 itself is in the fourth column only
 Eps(b)   == CASE b = 1 -> Q(25, 100) [] b = 2 -> Q(20, 100) [] b = 3 -> Q(15, 100) [] b = 4 -> Q(10, 100) [] OTHER -> Q(5, 100)
 Theta(b) == CASE b = 1 -> R(3) [] b = 2 -> Q(25, 10) [] b = 3 -> R(2) [] b = 4 -> Q(178, 100) [] OTHER -> Q(158, 100)
 SFq == Q(sf[1], sf[2])
